@@ -314,6 +314,18 @@ CTL_PROGS = [
      "modes": ["disp", "par"], "gated": True},
     {"prog": {"ops": [add(r=[101], name="r0"), batch([add(w=[2], name="in")], ctl=2, n=2, multi=True, name="m"), add(r=[101], name="r1")]},
      "modes": ["disp", "seq", "par"], "gated": True},
+    # the inner planner APPENDS i3 to i2's group (single conflict, better balance): what i3 alone touches is part of the
+    # batch's access like everything else (both orders of the two resource ids; outer system before and after the batch)
+    {"prog": {"ops": [batch([add(w=[1], t=3, name="i1"), add(w=[2], t=1, name="i2"), add(r=[2], w=[3], t=2, name="i3")], name="b"),
+                      add(w=[3], name="o")]},
+     "modes": ["disp", "par", "seq"], "gated": True},
+    {"prog": {"ops": [add(r=[2], name="o"),
+                      batch([add(w=[1], t=3, name="i1"), add(w=[3], t=1, name="i2"), add(r=[3], w=[2], t=2, name="i3")], n=2, name="b")]},
+     "modes": ["disp", "par", "seq"], "gated": True},
+    {"prog": {"ops": [batch([batch([add(w=[1], t=5, name="i1"), add(r=[4], t=1, name="i2"), add(w=[4], r=[3], t=1, name="i3"),
+                                    add(w=[4, 2], t=1, name="i4")], name="in")], ctl=1, name="out"),
+                      add(w=[3], name="o3"), add(r=[2], name="o2")]},
+     "modes": ["disp", "par"], "gated": True},
 ]
 
 
@@ -323,7 +335,7 @@ def planner_family(ctx, prop, mc_extra_props=(), qdeps=2):
     if ctx.quick():
         r = planner_mc(ctx, planner_consts(3, "{1,2}", "{1,3}", qdeps), invs_m, label="q", properties=mc_extra_props)
         planner_s2i(ctx, r["replay"], invs_t, variants=2)
-        planner_i2s(ctx, invs_t, count=40, nmin=4, nmax=40, nres=8, extra=["--boundary"])
+        planner_i2s(ctx, invs_t, count=40, nmin=4, nmax=40, nres=8, extra=["--boundary", "--funnel", 40])
         planner_i2s(ctx, invs_t, count=6, nmin=100, nmax=300, nres=14, extra=["--pbatch", 0.03], seed_off=1)
     else:
         r = planner_mc(ctx, planner_consts(3, "{1,2}", "{1,3,5}", 2, unnamed=True), invs_m, label="t1", properties=mc_extra_props)
@@ -332,7 +344,7 @@ def planner_family(ctx, prop, mc_extra_props=(), qdeps=2):
         planner_s2i(ctx, r["replay"], invs_t, variants=2)
         r = planner_mc(ctx, planner_consts(3, "{1,2,3}", "{3}", 1), invs_m, label="t3")
         planner_s2i(ctx, r["replay"], invs_t, variants=3)
-        planner_i2s(ctx, invs_t, count=400, nmin=4, nmax=60, nres=10, extra=["--boundary"])
+        planner_i2s(ctx, invs_t, count=400, nmin=4, nmax=60, nres=10, extra=["--boundary", "--funnel", 400])
         planner_i2s(ctx, invs_t, count=40, nmin=100, nmax=400, nres=16, extra=["--pbatch", 0.03], seed_off=1)
     # the library built without debug assertions / overflow checks (what --release gives): random programs again
     with nodebug_pass(ctx):
@@ -415,6 +427,9 @@ def check_C04(ctx):
     planner_family(ctx, "C04", qdeps=1)
     exec_family(ctx, "C04", extra=["--modes", "disp,par,seq,tlonly,disp", "--ptl", 0.1, "--ppanic", 0.15, "--pool1", 0.15, "--pnest", 0.06], mc=("tl", "batch"),
                 mc_thorough=("flat2", "deps", "batchseq"))
+    # the asynchronous dispatcher: every dispatch that wait() completes has run every system once, thread-local ones
+    # included, also when the caller polled running() or looked at the world before it waited
+    async_stage(ctx, ["InvC04x"], 80 if ctx.quick() else 600, extra=["--ptl", 0.3, "--ppanic", 0.2], seed_off=4)
 
 
 def check_C05(ctx):
@@ -527,6 +542,11 @@ def check_C12(ctx):
     # InvC04x belongs here too: a thread-local system that is silently not run violates "run ... in registration order"
     exec_family(ctx, "C12", extra=["--ptl", 0.2, "--modes", "disp,disp,tlonly,seq", "--pnest", 0.06, "--pool1", 0.2, "--ppanic", 0.25], mc=("tl",))
     exec_scenarios(ctx, TRACE_INVS["C12"], KF1_PROGS, "thread-local system inside a batch")
+    # the manual form of dispatch (dispatch_seq, then dispatch_thread_local): everything is on the calling thread, so known
+    # finding KF1 cannot show and cannot hide anything - the thread-local systems inside the batches run in every inner
+    # dispatch, after the ordinary inner systems, in registration order
+    exec_scenarios(ctx, TRACE_INVS["C12"], [dict(p, modes=["seq", "tlonly", "seq", "tlonly"]) for p in C04_PROGS],
+                   "thread-local systems inside batches under dispatch_seq + dispatch_thread_local")
     # async dispatcher: thread-local systems only inside wait(), on the caller, every wait
     out = ctx.fresh("as", "ndjson")
     st = run_bin(ctx, "exec", ["async", "--seed", ctx.seed * 1000 + 7, "--count", 80 if ctx.quick() else 600, "--calls", 12,
@@ -733,6 +753,10 @@ def check_C10(ctx):
 
 def check_C20(ctx):
     planner_family(ctx, "C20")
+    # the builder is printed after EVERY registration call (print; register; print ...): each text must be the plan
+    # as it is at that moment - a printer may not remember anything from one call to the next
+    planner_i2s(ctx, TRACE_INVS["C20"], count=50 if ctx.quick() else 500, nmin=3, nmax=25, nres=6,
+                extra=["--printevery", "--pbatch", 0.1, "--pill", 0.1, "--ptl", 0.1], seed_off=9)
 
 
 CHECKS = {
